@@ -472,7 +472,9 @@ MANIFEST = {
             "only grows with the crash position (C11_durable_monotone) and that the tick is stored by the same unit and bounds the entries' "
             "stamps (C11_tick_consistent). The model is tied to the current source on every run by comparing the hook log of the real code "
             "(calls and protocol events) with the extracted model and by re-running each history with a kill at every call boundary and "
-            "reopening the dictionary in a fresh process; thorough kills at every file-system mutation (also torn writes).",
+            "reopening the dictionary in a fresh process, and with a kill at every script-command boundary (also the instants at which the code "
+            "issues no LevelDb call); a reopened state must be a clean-shutdown state since the final commit made AND a state some prefix of "
+            "the commits produces in the model; thorough kills at every file-system mutation (also torn writes).",
     "note": "No axioms (Print Assumptions: closed under the global context). Partial as to the runtime: LevelDB's atomicity and openability after a "
             "kill is a hypothesis (kill_inside_atomic) validated by the syscall-level sweep on the installed LevelDB 1.23; process kill, not power "
             "loss (completed writes stay in the page cache). Trusted: the port in coq/UdbL/Txn.v, Learn.v, the hooks of /repo commit b552a60, "
